@@ -25,6 +25,14 @@ func genEvolve(h *vh.H, i int) string {
 		nEdits = 2 + h.Rng.IntN(3)
 	}
 	var edits []*j5sgen.Edit
+	// edit class `aliasShadow` (seeded change C13-m8): P refers to a type of another package through an import alias
+	// that is spelled like a type name; the edit appends a top-level declaration of that very name
+	if h.Chance(1, 6) {
+		if ed := aliasShadow(h, b, pkg); ed != nil {
+			edits = append(edits, ed)
+			nEdits--
+		}
+	}
 	for k := 0; k < nEdits; k++ {
 		// prefer user-declared containers (the property's quantifier); entity parts are extra
 		var c *j5sgen.Container
@@ -78,6 +86,71 @@ func genEvolve(h *vh.H, i int) string {
 		style = 1 + h.Rng.Uint64N(1<<30)
 	}
 	return fmt.Sprintf("evolve %s %s %s %d", b.Sexp().String(), j5sgen.S(pkg.Name).String(), j5sgen.EditsSexp(edits).String(), style)
+}
+
+// aliasShadow adds to P (package pkg of b, in place): `import <other>:<Alias>` with a capitalised alias and an object
+// `ZzVia<Alias>` with a field `thing` = object `<Alias>.<T>`, T a top-level object (or proto message) of another package
+// of the bundle. It returns the append edit `object <Alias> { …; object T { … } }` at the end of the same
+// file: a root object spelled like the alias, with a nested object spelled like the referenced type. The
+// field keeps pointing at the imported type (`expand` looks the alias up in the import map; local names are only
+// consulted for an empty / own package part). nil when the bundle has no second package with a usable type.
+func aliasShadow(h *vh.H, b *j5sgen.Bundle, pkg *j5sgen.Pkg) *j5sgen.Edit {
+	if len(b.Pkgs) < 2 {
+		return nil
+	}
+	type tgt struct{ pkg, name, kind string }
+	var tgts []tgt
+	for _, o := range b.Pkgs[:len(b.Pkgs)-1] {
+		if o.Name == pkg.Name {
+			continue
+		}
+		for _, f := range o.Files {
+			if f.Proto {
+				for _, m := range f.ProtoMsgs {
+					tgts = append(tgts, tgt{o.Name, m, j5sgen.FObject})
+				}
+				continue
+			}
+			if f.DeclPkg != "" && f.DeclPkg != o.Name {
+				continue
+			}
+			for _, e := range f.Elems {
+				if e.Kind == j5sgen.KObject {
+					tgts = append(tgts, tgt{o.Name, e.Object.Name, j5sgen.FObject})
+				}
+			}
+		}
+	}
+	var idxs []int
+	for fi, f := range pkg.Files {
+		if !f.Proto {
+			idxs = append(idxs, fi)
+		}
+	}
+	if len(tgts) == 0 || len(idxs) == 0 {
+		return nil
+	}
+	t := vh.Pick(h, tgts)
+	fi := vh.Pick(h, idxs)
+	f := pkg.Files[fi]
+	alias := vh.Pick(h, []string{"ZzShared", "ZzCommon", "ZzTypes", "ZzExt"})
+	for _, im := range f.Imports {
+		if im.Alias == alias {
+			return nil
+		}
+	}
+	f.Imports = append(f.Imports, j5sgen.Import{Path: t.pkg, Alias: alias})
+	f.Elems = append(f.Elems, &j5sgen.Elem{Kind: j5sgen.KObject, Object: &j5sgen.Object{Name: "ZzVia" + alias, Props: []*j5sgen.Prop{
+		{Name: "zzId", Field: &j5sgen.Field{Kind: j5sgen.FString}},
+		{Name: "thing", Field: &j5sgen.Field{Kind: t.kind, Ref: &j5sgen.TRef{Kind: j5sgen.RRef, Pkg: alias, Schema: t.name}}},
+	}}})
+	// (the j5s grammar nests objects in objects only)
+	nested := &j5sgen.Elem{Kind: j5sgen.KObject, Object: &j5sgen.Object{Name: t.name, Props: []*j5sgen.Prop{
+		{Name: "zzLabel", Field: &j5sgen.Field{Kind: j5sgen.FString}}}}}
+	decl := &j5sgen.Elem{Kind: j5sgen.KObject, Object: &j5sgen.Object{Name: alias, Nested: []*j5sgen.Elem{nested},
+		Props: []*j5sgen.Prop{{Name: "zzName", Field: &j5sgen.Field{Kind: j5sgen.FString}}}}}
+	h.Count("evolve.alias-shadow")
+	return &j5sgen.Edit{Kind: "appenddecl", FileIdx: fi, Decl: decl}
 }
 
 // captureAppend: a field appended to the top-level object Foo whose inline type takes the default name Foo
